@@ -3,16 +3,22 @@
 //! a schedule — a list of "let thread T run to its next stop" tokens — is replayed exactly.
 //!
 //! I line:  fmt=<raw|pco|lz4> lay=<last|blk|hole|adj> pad=<0|1> vf=<0|1> st=<0|1> g=<c|f>
-//!          pre=<n>[+<n>…] w=<n>[,<n>…] r=<op>[;<op>…] (one per reader) h=<hints> s=<tok>,<tok>,…
+//!          pre=<it>[+<it>…] w=<it>[,<it>…] r=<op>[;<op>…] (one per reader) h=<hints> s=<tok>,<tok>,…
+//!   items: <n> = push n values to the vector `a` the readers read, then write() it; b<n> = the same on a SECOND
+//!          vector `b` of the same database owned by the writer thread (it exists iff some item names it; it is
+//!          created after the layout's regions — before `a` for lay=last — and gets its initial size from its `pre` items)
 //!   ops:   get:<idx> rng:<k> fold:<k> vr:<idx> cur:<idx> len     idx ∈ last|first|mid|<n>
 //!   toks:  w | <reader number 1…> ; a trailing `!` = the step is expected to block
 //!   hints: what the allocator and the compressor (both external to the step model) answered in a
-//!          sequential dry run of the same configuration: F<file_len>;S<start>;then per write()
-//!          f | e | r<new_start>, followed by :<compressed size>.<…> for each full page encoded.
-//! O lines: one per token (`<tok> <stop reached> <region start>,<len>,<reserved> <shared len> <file len>`),
-//!          one per completed reader operation, one per write(), and a final sequential read-back.
-//! V lines: the spec-level oracle of C09 (values = pushed values, lengths monotone per reader, no panic,
-//!          no reader blocked while the writer is parked outside every lock).
+//!          sequential dry run of the same configuration: F<file_len>;S<start of a>[;T<start of b>];then per item
+//!          (pre, then w) f | e | r<new_start>, followed by :<compressed size>.<…> for each full page encoded.
+//! O lines: one per token (`<tok> <stop reached> <region start>,<len>,<reserved> <shared len> <file len>`, all of `a`,
+//!          then ` b=<start>,<len>,<reserved>,<stored len>` when `b` exists), one per completed reader operation,
+//!          one per write(), and a final sequential read-back (`final` of a, `finalb` of b).
+//! V lines: the spec-level oracle of C09 (values = the values pushed to `a`, lengths monotone per reader, no panic,
+//!          no reader blocked while the writer is parked outside every lock); a bad read through a snapshot of an
+//!          extent `a` vacated by a relocation that another vector's extent now overlaps is additionally keyed
+//!          `reader-saw-bytes-of-another-vector-after-relocation`.
 use crate::rng::Rng;
 use rawdb::Database;
 use rawdb::verif_tap::{self, Event};
@@ -32,6 +38,13 @@ fn mix(i: u64) -> u64 {
 }
 fn val(vf: u8, i: usize) -> u64 {
     if vf == 0 { 1000 + 7 * i as u64 } else { mix(i as u64) }
+}
+/// values of the second vector: another generator (vf=1: as incompressible as a's)
+fn valb(vf: u8, i: usize) -> u64 {
+    if vf == 0 { 0xB5B5_0000_0000_0000 | (13 * i as u64 + 5) } else { mix(i as u64 ^ 0x5151_5151_0000) }
+}
+fn is_valb(vf: u8, total_b: usize, v: u64) -> bool {
+    (0..total_b).any(|j| valb(vf, j) == v)
 }
 
 // ------------------------------------------------------------------------------------------------
@@ -152,6 +165,27 @@ fn hpause(name: &'static str) {
 
 // ------------------------------------------------------------------------------------------------
 // configuration
+/// one writer item: push `n` values to `a` (or to the second vector `b`) and write() it
+#[derive(Clone, Copy, Debug, PartialEq)]
+struct Item {
+    b: bool,
+    n: usize,
+}
+fn ia(n: usize) -> Item { Item { b: false, n } }
+fn ib(n: usize) -> Item { Item { b: true, n } }
+fn parse_item(s: &str) -> Item {
+    match s.strip_prefix('b') {
+        Some(r) => Item { b: true, n: r.parse().unwrap() },
+        None => Item { b: false, n: s.parse().unwrap() },
+    }
+}
+fn item_str(i: &Item) -> String {
+    format!("{}{}", if i.b { "b" } else { "" }, i.n)
+}
+fn sum_a(items: &[Item]) -> usize {
+    items.iter().filter(|i| !i.b).map(|i| i.n).sum()
+}
+
 #[derive(Clone, Debug)]
 struct Cfg {
     fmt: String,
@@ -160,15 +194,16 @@ struct Cfg {
     vf: u8,
     st: bool,
     fine: bool,
-    pre: Vec<usize>,
-    w: Vec<usize>,
+    pre: Vec<Item>,
+    w: Vec<Item>,
+    hasb: bool,
     readers: Vec<Vec<(String, String)>>,
     hints: String,
     sched: Vec<(usize, bool)>, // thread (0 = writer), expect-block
 }
 
 fn parse_cfg(line: &str) -> Cfg {
-    let mut c = Cfg { fmt: "raw".into(), lay: "blk".into(), pad: false, vf: 0, st: false, fine: false, pre: vec![], w: vec![],
+    let mut c = Cfg { fmt: "raw".into(), lay: "blk".into(), pad: false, vf: 0, st: false, fine: false, pre: vec![], w: vec![], hasb: false,
                       readers: vec![], hints: String::new(), sched: vec![] };
     for tok in line.split_whitespace() {
         let Some((k, v)) = tok.split_once('=') else { continue };
@@ -179,8 +214,8 @@ fn parse_cfg(line: &str) -> Cfg {
             "vf" => c.vf = v.parse().unwrap(),
             "st" => c.st = v == "1",
             "g" => c.fine = v == "f",
-            "pre" => c.pre = v.split('+').filter(|s| !s.is_empty() && *s != "0").map(|s| s.parse().unwrap()).collect(),
-            "w" => c.w = v.split(',').filter(|s| !s.is_empty()).map(|s| s.parse().unwrap()).collect(),
+            "pre" => c.pre = v.split('+').filter(|s| !s.is_empty() && *s != "0").map(parse_item).collect(),
+            "w" => c.w = v.split(',').filter(|s| !s.is_empty()).map(parse_item).collect(),
             "r" => c.readers.push(v.split(';').filter(|s| !s.is_empty()).map(|o| {
                 let (a, b) = o.split_once(':').unwrap_or((o, ""));
                 (a.to_string(), b.to_string())
@@ -194,14 +229,15 @@ fn parse_cfg(line: &str) -> Cfg {
             _ => {}
         }
     }
+    c.hasb = c.pre.iter().chain(c.w.iter()).any(|i| i.b);
     c
 }
 
 fn cfg_line(c: &Cfg) -> String {
     let mut s = format!("fmt={} lay={} pad={} vf={} st={} g={} pre={} w={}", c.fmt, c.lay, c.pad as u8, c.vf, c.st as u8,
         if c.fine { "f" } else { "c" },
-        if c.pre.is_empty() { "0".to_string() } else { c.pre.iter().map(|x| x.to_string()).collect::<Vec<_>>().join("+") },
-        c.w.iter().map(|x| x.to_string()).collect::<Vec<_>>().join(","));
+        if c.pre.is_empty() { "0".to_string() } else { c.pre.iter().map(item_str).collect::<Vec<_>>().join("+") },
+        c.w.iter().map(item_str).collect::<Vec<_>>().join(","));
     for r in &c.readers {
         s.push_str(" r=");
         s.push_str(&r.iter().map(|(a, b)| if b.is_empty() { a.clone() } else { format!("{a}:{b}") }).collect::<Vec<_>>().join(";"));
@@ -278,7 +314,9 @@ where
     _dir: tempfile::TempDir,
     db: Database,
     vec: V,
+    vecb: Option<V>,
     next: usize,
+    nextb: usize,
 }
 
 fn setup<V: VecKind>(c: &Cfg) -> Setup<V>
@@ -293,6 +331,10 @@ where
     };
     let db = Database::open(dir.path()).unwrap();
     let comp = V::COMP;
+    let mut vecb: Option<V> = None;
+    if c.hasb && c.lay == "last" {
+        vecb = Some(V::forced_import(&db, "b", Version::ONE).unwrap());
+    }
     if c.lay == "last" {
         // the data region must be the last one: for compressed vectors the page-index region is created first
         if comp {
@@ -328,18 +370,30 @@ where
         }
         _ => {}
     }
+    if c.hasb && vecb.is_none() {
+        vecb = Some(V::forced_import(&db, "b", Version::ONE).unwrap());
+    }
     if c.pad && c.lay != "last" {
         pad_to_file_end(&db, 0, "b");
     }
-    let mut next = 0usize;
-    for &n in &c.pre {
-        for _ in 0..n {
-            vec.push(val(c.vf, next));
-            next += 1;
+    let (mut next, mut nextb) = (0usize, 0usize);
+    for it in &c.pre {
+        if it.b {
+            let vb = vecb.as_mut().unwrap();
+            for _ in 0..it.n {
+                vb.push(valb(c.vf, nextb));
+                nextb += 1;
+            }
+            vb.write().unwrap();
+        } else {
+            for _ in 0..it.n {
+                vec.push(val(c.vf, next));
+                next += 1;
+            }
+            vec.write().unwrap();
         }
-        vec.write().unwrap();
     }
-    Setup { _dir: dir, db, vec, next }
+    Setup { _dir: dir, db, vec, vecb, next, nextb }
 }
 
 fn region_tuple<V: VecKind>(v: &V) -> (usize, usize, usize)
@@ -360,19 +414,30 @@ where
     let pre = std::mem::take(&mut c0.pre);
     let s = setup::<V>(&c0);
     let mut vec = s.vec;
-    let mut next = 0usize;
+    let mut vecb = s.vecb;
+    let (mut next, mut nextb) = (0usize, 0usize);
     let (st0, _, _) = region_tuple(&vec);
     let mut out = format!("F{};S{}", s.db.file_len(), st0);
+    if let Some(vb) = &vecb {
+        out.push_str(&format!(";T{}", region_tuple(vb).0));
+    }
     let pp = 16384 / 8;
-    for &n in pre.iter().chain(c.w.iter()) {
-        let (s0, l0, r0) = region_tuple(&vec);
-        let stored = vec.stored_len();
+    for it in pre.iter().chain(c.w.iter()) {
+        let n = it.n;
+        let (v, pages_name): (&mut V, &str) = if it.b { (vecb.as_mut().unwrap(), "b/usize_pages") } else { (&mut vec, "v/usize_pages") };
+        let (s0, _l0, r0) = region_tuple(v);
+        let stored = v.stored_len();
         for _ in 0..n {
-            vec.push(val(c.vf, next));
-            next += 1;
+            if it.b {
+                v.push(valb(c.vf, nextb));
+                nextb += 1;
+            } else {
+                v.push(val(c.vf, next));
+                next += 1;
+            }
         }
-        vec.write().unwrap();
-        let (s1, l1, r1) = region_tuple(&vec);
+        v.write().unwrap();
+        let (s1, _l1, r1) = region_tuple(v);
         let kind = if r1 == r0 { "f".to_string() } else if s1 == s0 { "e".to_string() } else { format!("r{s1}") };
         out.push(';');
         out.push_str(&kind);
@@ -381,7 +446,7 @@ where
             let first_page = stored / pp;
             let full_after = (stored + n) / pp;
             if full_after > first_page && n > 0 {
-                let preg = s.db.get_region("v/usize_pages").unwrap();
+                let preg = s.db.get_region(pages_name).unwrap();
                 let rd = preg.create_reader();
                 let bytes = rd.read_all().to_vec();
                 drop(rd);
@@ -394,7 +459,6 @@ where
                 out.push_str(&sizes.join("."));
             }
         }
-        let _ = (l0, l1);
     }
     out
 }
@@ -548,6 +612,10 @@ where
     });
     let ro_main = s.vec.read_only_clone();
     let region = s.vec.region().clone();
+    // the second vector: its data region, its page-index region (compressed) and a clone to read its stored length
+    let region_b = s.vecb.as_ref().map(|v| v.region().clone());
+    let pages_b = if V::COMP && c.hasb { db.get_region("b/usize_pages") } else { None };
+    let ro_b = s.vecb.as_ref().map(|v| v.read_only_clone());
     let results: Arc<Mutex<Vec<(usize, usize, OpRes)>>> = Arc::new(Mutex::new(vec![]));
     let wres: Arc<Mutex<Vec<String>>> = Arc::new(Mutex::new(vec![]));
     let mut handles = vec![];
@@ -557,18 +625,25 @@ where
         let ctx = Ctx { id: 0, writer: true, fine: c.fine, stamped: c.st, sh: sh.clone() };
         let (w, vf, st) = (c.w.clone(), c.vf, c.st);
         let mut vec = s.vec;
-        let mut next = s.next;
+        let mut vecb = s.vecb;
+        let (mut next, mut nextb) = (s.next, s.nextb);
         let wres = wres.clone();
         handles.push(std::thread::spawn(move || {
             TL.with(|t| *t.borrow_mut() = Some(ctx.clone()));
-            for (k, n) in w.iter().enumerate() {
+            for (k, it) in w.iter().enumerate() {
                 hpause("h:op-start");
                 let r = catch_unwind(AssertUnwindSafe(|| {
-                    for _ in 0..*n {
-                        vec.push(val(vf, next));
-                        next += 1;
+                    let v: &mut V = if it.b { vecb.as_mut().unwrap() } else { &mut vec };
+                    for _ in 0..it.n {
+                        if it.b {
+                            v.push(valb(vf, nextb));
+                            nextb += 1;
+                        } else {
+                            v.push(val(vf, next));
+                            next += 1;
+                        }
                     }
-                    if st { vec.stamped_write(Stamp::new(k as u64 + 1)).map(|_| true) } else { vec.write() }
+                    if st { v.stamped_write(Stamp::new(k as u64 + 1)).map(|_| true) } else { v.write() }
                 }));
                 wres.lock().unwrap().push(match r {
                     Ok(Ok(_)) => "ok".into(),
@@ -581,7 +656,7 @@ where
             ctx.sh.cv_ctl.notify_all();
             drop(g);
             TL.with(|t| *t.borrow_mut() = None);
-            vec
+            (vec, vecb)
         }));
     }
     // reader threads
@@ -634,6 +709,8 @@ where
     let mut reader_marks: Vec<Vec<(String, usize)>> = vec![vec![]; c.readers.len()];
     let mut seen_results = 0usize;
     let mut max_len: Vec<usize> = vec![0; n_thr];
+    // extent of `a` (start, reserved) when each reader last created its rawdb Reader (its `…after-reader…` stop)
+    let mut snap_ext: Vec<Option<(usize, usize)>> = vec![None; n_thr];
 
     for (ti, (tid, expect_block)) in c.sched.iter().enumerate() {
         let tid = *tid;
@@ -665,7 +742,11 @@ where
             let m = region.meta();
             (m.start(), m.len(), m.reserved())
         };
-        let suffix = format!("{rs},{rl},{rr} {} {}", ro_main.len(), db.file_len());
+        let mut suffix = format!("{rs},{rl},{rr} {} {}", ro_main.len(), db.file_len());
+        if let (Some(rb), Some(rob)) = (&region_b, &ro_b) {
+            let m = rb.meta();
+            suffix.push_str(&format!(" b={},{},{},{}", m.start(), m.len(), m.reserved(), rob.len()));
+        }
         match arr {
             Some(TState::Parked(stop)) => {
                 inflight[tid] = false;
@@ -673,6 +754,7 @@ where
                 if tid == 0 { out.wstops.push(stop.clone()); } else {
                     out.rstops[tid - 1].push(stop.clone());
                     reader_marks[tid - 1].push((stop.clone(), out.wstops.len()));
+                    if stop.contains(":after-reader") { snap_ext[tid] = Some((rs, rr)); }
                 }
                 out.lines.push(format!("{tname} {stop} {suffix}"));
             }
@@ -720,6 +802,21 @@ where
                     r.len_seen, r.idx, r.want, r.status, r.got.len(),
                     r.got.first().map(|v| format!(", first {v} expected {}", val(c.vf, r.idx))).unwrap_or_default(),
                     out.wstops.join(" "), reader_marks[rid - 1].iter().map(|(s, w)| format!("{s}@w{w}")).collect::<Vec<_>>().join(" ")));
+                // the bad read went through a snapshot of an extent `a` has vacated since (relocation, no flush in between)
+                // and an extent of the OTHER vector now overlaps it: the allocator handed the vacated extent out again
+                if let Some((ss, sr)) = snap_ext[rid] {
+                    let a_now = region.meta().start();
+                    let foreign: Vec<(&str, usize, usize)> = [("b", &region_b), ("b's page index", &pages_b)].iter()
+                        .filter_map(|(n, r)| r.as_ref().map(|r| { let m = r.meta(); (*n, m.start(), m.reserved()) })).collect();
+                    for (n, fs, fr) in foreign {
+                        if ss != a_now && fs < ss + sr && ss < fs + fr {
+                            let bval = r.got.iter().enumerate().find(|(k, v)| **v != val(c.vf, r.idx + k)).map(|(_, v)| is_valb(c.vf, c.pre.iter().chain(c.w.iter()).filter(|i| i.b).map(|i| i.n).sum(), *v));
+                            out.viol.push(format!("C09:reader-saw-bytes-of-another-vector-after-relocation reader {rid} op {kind}:{arg} (len seen {}) read through its snapshot of a's extent [{ss},+{sr}), vacated by a relocation of a (now at {a_now}) and not yet released by a flush, which the extent [{fs},+{fr}) of {n} overlaps: {}{}",
+                                r.len_seen, r.status, match bval { Some(true) => ", the wrong value is one pushed to b", Some(false) => ", the wrong value is none of a's or b's", None => "" }));
+                            break;
+                        }
+                    }
+                }
             }
         }
     }
@@ -748,7 +845,8 @@ where
             return out;
         }
     }
-    let vec = handles.pop().unwrap().join();
+    let joined = handles.pop().unwrap().join();
+    let (vec, vecb) = match joined { Ok((v, vb)) => (Ok(v), vb), Err(e) => (Err(e), None) };
     for h in rhandles {
         let _ = h.join();
     }
@@ -772,13 +870,21 @@ where
         let ro = vec.read_only_clone();
         let l = ro.len();
         let all = catch_unwind(AssertUnwindSafe(|| ro.collect_range_at(0, l))).unwrap_or_default();
-        let total: usize = c.pre.iter().sum::<usize>() + c.w.iter().sum::<usize>();
+        let total: usize = sum_a(&c.pre) + sum_a(&c.w);
         let okv = all.len() == l && all.iter().enumerate().all(|(i, v)| *v == val(c.vf, i));
         let (rs, rl, rr) = region_tuple(&vec);
         out.lines.push(format!("final len={l} values={} region={rs},{rl},{rr}", if okv { "ok" } else { "bad" }));
         if !okv || (l != total && !aborted) {
             out.viol.push(format!("final-readback-differs len {l} expected {total} values {}", if okv { "ok" } else { "bad" }));
         }
+    }
+    if let Some(vb) = vecb {
+        let ro = vb.read_only_clone();
+        let l = ro.len();
+        let all = catch_unwind(AssertUnwindSafe(|| ro.collect_range_at(0, l))).unwrap_or_default();
+        let okv = all.len() == l && all.iter().enumerate().all(|(i, v)| *v == valb(c.vf, i));
+        let (rs, rl, rr) = region_tuple(&vb);
+        out.lines.push(format!("finalb len={l} values={} region={rs},{rl},{rr}", if okv { "ok" } else { "bad" }));
     }
     out.tags = sh.m.lock().unwrap().tags.clone();
     out
@@ -804,14 +910,17 @@ where
         if s == "h:op-start" { bounds.push(i + 1); }
     }
     bounds.push(wstops.len() + 1);
-    let mut stored: usize = c.pre.iter().sum();
+    let mut stored: usize = sum_a(&c.pre);
     let mut d2 = false;
+    // the region was moved (by this or an EARLIER write of the schedule) after the reader took its snapshot
+    let mut moved_after_snap = false;
     for k in 0..bounds.len() - 1 {
         if k >= c.w.len() { break; }
+        if c.w[k].b { continue; }      // a write() of the second vector: none of a's pages is rewritten
         let (b, e) = (bounds[k], (bounds[k + 1] - 1).min(wstops.len()));
         let win = &wstops[b..e];
-        let slow = stored % 2048 != 0 && stored % 2048 + c.w[k] >= 2048;
-        stored += c.w[k];
+        let slow = stored % 2048 != 0 && stored % 2048 + c.w[k].n >= 2048;
+        stored += c.w[k].n;
         let data_at = win.iter().position(|s| s == "write_with:fits:after-data" || s == "write_with:relocate:after-copy" || s.ends_with(":after-region-write")).map(|p| b + p + 1);
         let index_at = win.iter().position(|s| s.ends_with(":after-index")).map(|p| b + p + 1);
         let relocated = win.iter().any(|s| s.starts_with("write_with:relocate"));
@@ -821,9 +930,13 @@ where
                 return format!("reader-decodes-page-being-rewritten{sym}");
             }
         }
-        if let (Some(sn), Some(en), Some(i)) = (snap, entry, index_at) {
+        if let (Some(sn), Some(i)) = (snap, index_at) {
             let moved_at = win.iter().position(|s| s.ends_with(":after-region-write")).map(|p| b + p + 1).unwrap_or(i);
-            if slow && relocated && sn < moved_at && en >= i { d2 = true; }
+            if relocated && sn < moved_at { moved_after_snap = true; }
+        }
+        if let (Some(en), Some(i)) = (entry, index_at) {
+            // a page entry written by a re-encoding write is used through a snapshot of the extent the region has left
+            if slow && moved_after_snap && en >= i { d2 = true; }
         }
     }
     if d2 { return format!("reader-old-region-snapshot-new-page-entry{sym}"); }
@@ -832,10 +945,21 @@ where
 
 // ------------------------------------------------------------------------------------------------
 // schedule generation
-fn regimes() -> Vec<Cfg> {
-    let mk = |fmt: &str, lay: &str, pad: bool, vf: u8, pre: &[usize], w: usize| Cfg {
-        fmt: fmt.into(), lay: lay.into(), pad, vf, st: false, fine: false, pre: pre.to_vec(), w: vec![w], readers: vec![], hints: String::new(), sched: vec![],
-    };
+type ReaderSet = Vec<Vec<(String, String)>>;
+
+/// Regimes of the enumerated family.  The second component: reader sets of its own (None = the common ones) and
+/// whether the directed schedule "every reader up to the stop at which it holds its rawdb Reader, the writer to
+/// the end, the readers to the end" is run in addition to the (sampled) enumeration.
+fn regimes() -> Vec<(Cfg, Option<Vec<ReaderSet>>)> {
+    let mk = |fmt: &str, lay: &str, pad: bool, vf: u8, pre: &[usize], w: usize| (Cfg {
+        fmt: fmt.into(), lay: lay.into(), pad, vf, st: false, fine: false, pre: pre.iter().map(|n| ia(*n)).collect(), w: vec![ia(w)], hasb: false,
+        readers: vec![], hints: String::new(), sched: vec![],
+    }, None);
+    // two vectors: `a` relocates, then `b` needs an extent no larger than the one `a` vacated
+    let mk2 = |fmt: &str, lay: &str, vf: u8, pre: &[Item], w: &[Item], rsets: &[&[(&str, &str)]]| (Cfg {
+        fmt: fmt.into(), lay: lay.into(), pad: false, vf, st: false, fine: false, pre: pre.to_vec(), w: w.to_vec(), hasb: true,
+        readers: vec![], hints: String::new(), sched: vec![],
+    }, Some(rsets.chunks(2).map(|ch| ch.iter().map(|r| r.iter().map(|(k, a)| (k.to_string(), a.to_string())).collect()).collect()).collect()));
     vec![
         mk("raw", "blk", false, 0, &[100], 50),      // fast append, fits in the reserve
         mk("raw", "last", false, 0, &[500], 100),     // in-place extension of the last region
@@ -851,7 +975,38 @@ fn regimes() -> Vec<Cfg> {
         mk("pco", "blk", false, 0, &[400], 200),      // fast append + relocation
         mk("pco", "blk", true, 1, &[400], 2000),      // page overflow + relocation + file growth
         mk("lz4", "adj", false, 0, &[2000], 100),     // lz4: page overflow in place
+        // [a 4K][blk][b 4K] -> (pre) [.][blk][.][a 32K: 4000 values][b 8K: 1000 values]; then a -> 9000 values (relocated to the
+        // end, vacating 32K), then b -> 3000 values (needs a 32K extent)
+        mk2("raw", "blk", 0, &[ia(100), ib(100), ia(900), ia(3000), ib(900)], &[ia(5000), ib(2000)],
+            &[&[("vr", "first")], &[("fold", "4000")], &[("vr", "mid")], &[("get", "first")]]),
+        // the same from a layout with a reusable hole: [a 4K][x 4K][b 4K][hole 60K][c 4K]
+        mk2("raw", "hole", 1, &[ia(100), ib(100), ia(900), ia(3000), ib(900)], &[ia(5000), ib(2000)],
+            &[&[("vr", "mid")], &[("fold", "4000")], &[("cur", "first")], &[("rng", "4000")]]),
+        // compressed (incompressible values): a = 2 full pages in a 64K extent, b behind it; a -> 4 pages (relocated,
+        // page-aligned start: no page is rewritten), then b -> 2 pages (needs 64K)
+        mk2("pco", "blk", 1, &[ia(2048), ib(100), ia(2048), ib(1948)], &[ia(4096), ib(2048)],
+            &[&[("get", "first")], &[("fold", "3")], &[("rng", "3")], &[("cur", "first")]]),
+        // (short reads: the model decodes a whole page per element read)
+        mk2("lz4", "blk", 1, &[ia(2048), ib(100), ia(2048), ib(1948)], &[ia(4096), ib(2048)],
+            &[&[("get", "first")], &[("fold", "3")]]),
     ]
+}
+
+/// the directed schedule of a two-vector regime: readers to the stop after which they hold their Reader (and,
+/// compressed, not yet the pages lock), the writer to its end, then every reader to its end
+fn directed_schedule(wst: &[String], rst: &[Vec<String>]) -> Vec<usize> {
+    let mut s = vec![];
+    let mut left = vec![];
+    for (ri, r) in rst.iter().enumerate() {
+        let upto = r.iter().position(|x| x.contains(":after-reader")).map(|p| p + 1).unwrap_or(0);
+        for _ in 0..upto { s.push(ri + 1); }
+        left.push(r.len() - upto);
+    }
+    for _ in 0..wst.len() { s.push(0); }
+    for (ri, n) in left.iter().enumerate() {
+        for _ in 0..*n { s.push(ri + 1); }
+    }
+    s
 }
 
 fn with_hints(c: &Cfg) -> Cfg {
@@ -876,7 +1031,7 @@ fn run_any(c: &Cfg) -> CaseOut {
 fn probe(c: &Cfg) -> (Vec<String>, Vec<Vec<String>>, bool) {
     let mut p = c.clone();
     p.sched = vec![];
-    for _ in 0..40 {
+    for _ in 0..90 {
         p.sched.push((0, false));
     }
     let nreaders = p.readers.len();
@@ -1000,13 +1155,15 @@ pub fn run(args: &[String]) -> i32 {
     if mode != "random" {
         let mut k = 0u64;
         let mut cfg_no = 0u64;
-        for (ri, base) in regimes().into_iter().enumerate() {
+        for (ri, (base, own_sets)) in regimes().into_iter().enumerate() {
             let mut base_h: Option<Cfg> = None;
-            for (si, rs) in reader_sets.iter().enumerate() {
+            let directed = own_sets.is_some();
+            let sets: &Vec<ReaderSet> = own_sets.as_ref().unwrap_or(&reader_sets);
+            for (si, rs) in sets.iter().enumerate() {
                 if base.fmt != "raw" && rs.iter().any(|r| r.iter().any(|(k, _)| k == "vr")) {
                     continue;
                 }
-                if base.fmt == "raw" && si == 3 { continue; }
+                if base.fmt == "raw" && si == 3 && !directed { continue; }
                 if only_regime.is_some_and(|r| r != ri) { continue; }
                 // each (regime, reader pair) configuration is enumerated by exactly one shard
                 cfg_no += 1;
@@ -1018,6 +1175,12 @@ pub fn run(args: &[String]) -> i32 {
                 let scheds = enumerate(&wst, &rst, 400000, grows, por);
                 ex_total += scheds.len();
                 eprintln!("schedvec: regime {ri} readers {si}: writer stops {} reader stops {:?} -> {} schedules", wst.len(), rst.iter().map(|r| r.len()).collect::<Vec<_>>(), scheds.len());
+                if directed {
+                    let mut cc = c.clone();
+                    cc.sched = directed_schedule(&wst, &rst).iter().map(|t| (*t, false)).collect();
+                    emit_case(&format!("x{ri}.{si}.d"), &cc);
+                    n += 1;
+                }
                 let stride = ((scheds.len() as u64).div_ceil(xmax.max(1))).max(1);
                 let phase = (a.seed / 1000) % stride;
                 for (j, s) in scheds.iter().enumerate() {
@@ -1038,11 +1201,23 @@ pub fn run(args: &[String]) -> i32 {
         let fmt = *rng.pick(&["raw", "pco", "pco", "lz4"]);
         let lay = *rng.pick(if fmt == "raw" { &["last", "blk", "hole", "adj"][..] } else { &["blk", "hole", "adj", "last"][..] });
         let mut c = Cfg { fmt: fmt.into(), lay: lay.into(), pad: rng.chance(1, 5), vf: rng.below(2) as u8, st: fmt == "raw" && rng.chance(1, 4), fine: rng.chance(1, 2),
-                          pre: vec![], w: vec![], readers: vec![], hints: String::new(), sched: vec![] };
+                          pre: vec![], w: vec![], hasb: false, readers: vec![], hints: String::new(), sched: vec![] };
         let sizes: &[u64] = if fmt == "raw" { &[1, 7, 100, 400, 508, 600, 3000] } else { &[1, 50, 400, 1000, 2047, 2048, 2100, 4500] };
         // at least one stored element: the stop sequence of a reader operation must not depend on the schedule (len 0 = early return)
-        for _ in 0..rng.range(1, 2) { c.pre.push(*rng.pick(sizes) as usize); }
-        for _ in 0..rng.range(1, 3) { c.w.push(*rng.pick(sizes) as usize); }
+        for _ in 0..rng.range(1, 2) { c.pre.push(ia(*rng.pick(sizes) as usize)); }
+        for _ in 0..rng.range(1, 3) { c.w.push(ia(*rng.pick(sizes) as usize)); }
+        // a quarter of the cases: a second vector of the writer thread, created with an initial size in the pre phase and
+        // written 1-2 times between / after the writes of `a` (its relocations and allocations compete for the same file)
+        if rng.chance(1, 4) {
+            c.hasb = true;
+            let at = rng.below(c.pre.len() as u64 + 1) as usize;
+            c.pre.insert(at, ib(*rng.pick(sizes) as usize));
+            if rng.chance(1, 3) { c.pre.push(ib(*rng.pick(sizes) as usize)); }
+            for _ in 0..rng.range(1, 2) {
+                let at = rng.range(1, c.w.len() as u64) as usize;
+                c.w.insert(at, ib(*rng.pick(sizes) as usize));
+            }
+        }
         let kinds: &[&str] = if fmt == "raw" { &["get", "rng", "fold", "vr", "cur", "len"] } else { &["get", "rng", "fold", "cur", "len"] };
         for _ in 0..rng.range(1, 3) {
             let mut ops = vec![];
